@@ -24,6 +24,18 @@ def reads(tx):
     return out, lf
 
 
+def canon_reads(tokens):
+    """id-list tokens with their ids sorted (sets as sets)"""
+    out = []
+    for t in tokens:
+        p = t.split(":")
+        if p[0] in ("Q", "V", "L", "I", "QS") and len(p) == 3:
+            out.append("%s:%s:%s" % (p[0], p[1], ",".join(sorted(x for x in p[2].split(",") if x))))
+        else:
+            out.append(t)
+    return out
+
+
 def parse_ops(tt):
     """tokens of one transaction (after 'TX') -> (sys, precommit_fails, vetoes, [op dict])"""
     pos = [0]
@@ -153,7 +165,7 @@ def run_family_x(c, profile, n_quick, n_thorough, compare, oracle, what, nontriv
                 ia, ib = set(a["facts"]), set(b["facts"])
                 if ia != ib:
                     vlib.log("  facts only impl : %s\n  facts only model: %s" % (sorted(ia - ib), sorted(ib - ia)))
-                oa, ob = set(a["other"]), set(b["other"])
+                oa, ob = set(canon_reads(a["other"])), set(canon_reads(b["other"]))
                 if oa != ob:
                     vlib.log("  reads only impl : %s\n  reads only model: %s" % (sorted(oa - ob), sorted(ob - oa)))
     c.cov["evaluations"] = len(cases)
